@@ -7,6 +7,9 @@
   to the code by the `fb.hist` correspondence stream over 7 depths x 2 orders x 5 sizes x 2 buffer
   lengths of the real, macro-instantiated `Framebuffer`).
 
+  Second tie for the WRITE path: EG/Props/C10/Generated.lean proves `Fb.setPixel`, `Fb.drawIter`, `Fb.new`, `bufferSize`
+  equal to the definitions regenerated from src/framebuffer.rs on every check (EG/Generated/FbSrc.lean).
+
   Quantifiers: `fb` ranges over ALL well-formed framebuffers (`Fb.Wf`: one of the seven raw types,
   either data order, ANY width and height, ANY `N >= BUFFER_SIZE` below 2^61 bytes, any byte
   content); points over all of `Int x Int`; colours over all raw values of the depth (`c < 2^bits`,
